@@ -129,6 +129,12 @@ class Gen:
             return r.choice(INT_BOUNDARY) + r.choice((0, 0, 0, 1, -1))
         if k < 0.93 or not self.huge_ints:
             self._c("int_big")
+            if r.random() < 0.12:
+                # round decimal numbers with hundreds or thousands of digits (still below the interpreter's 4300 digit
+                # conversion limit): long runs of zero digits, values just beside a power of ten
+                n = 10 ** r.choice((18, 19, 100, 599, 600, 601, 1199, 1200, 1801, 2400, 4000))
+                n = r.choice((n, n + r.randint(1, 9), n - 1, n * r.randint(2, 9), n + 10 ** r.choice((1, 17, 300)) if n > 10 ** 400 else n + 7))
+                return n if r.random() < 0.5 else -n
             n = r.getrandbits(r.choice((31, 32, 33, 40, 63, 64, 65, 128, 500)))
             return n if r.random() < 0.5 else -n
         self._c("int_huge")
